@@ -42,6 +42,18 @@ OPS = [
     ("rev->id", r"\.rev\(\)", ""),
     ("swap_self_other", r"^(?=.*\bself\.)(?=.*\bother\.)(.*)$", "SWAP"),
     ("while->if", r"\bwhile (?!let\b)", "if "),
+    # round 2: direction reversals, clock-variable confusions, dropped match alternatives
+    ("lt->gt", r" < ", " > "), ("gt->lt", r" > ", " < "), ("le->ge", r" <= ", " >= "), ("ge->le", r" >= ", " <= "),
+    ("plus1->plus2", r" \+ 1\b", " + 2"),
+    ("drop_none_alt", r"None \| ", ""), ("less<->greater_pat", r"Some\(Ordering::Greater\)", "Some(Ordering::Less)"),
+    ("less<->greater_pat2", r"Some\(Ordering::Less\)", "Some(Ordering::Greater)"),
+    ("clone_without->clone", r"\.clone_without\(&[a-z_\.]+\)", ".clone()"),
+    ("self.clock->other.clock", r"\bself\.clock\b", "other.clock"), ("other.clock->self.clock", r"\bother\.clock\b", "self.clock"),
+    ("entry.clock->self.clock", r"\bentry\.clock\b", "self.clock"), ("&clock->&self.clock", r"\(&clock\)", "(&self.clock)"),
+    ("&self.clock->&clock", r"\(&self\.clock\)", "(&clock)"),
+    ("glb->merge", r"\.glb\(", ".merge("), ("intersection_args", r"VClock::intersection\(&([a-z_\.]+), ([a-z_\.&]+)\)", r"VClock::intersection(&\1, &\1)"),
+    ("is_empty->false", r"[a-z_\.]+\.is_empty\(\)", "false"),
+    ("counter->counter-1", r"\bdot\.counter\b", "(dot.counter - 1)"),
     ("less->greater", r"Ordering::Less", "Ordering::Greater"), ("greater->less", r"Ordering::Greater", "Ordering::Less"),
     ("min->max", r"\.min\(", ".max("), ("max->min", r"\.max\(", ".min("),
     ("true->false", r"\btrue\b", "false"), ("false->true", r"\bfalse\b", "true"),
